@@ -204,6 +204,15 @@ Definition monitor_fail (c : case) : bool :=
       let exp_ok obs x := Bool.eqb (mem (x_id x) obs) (negb (x_last x + x_expire x <? p_now p)) in
       negb (negb panicked
             && forallb (fun c => kept (pc_id c) || removed_ok c) (ps_changes s)
+            (* (a') the converse: a finished change that is kept is not older than the prune limit, an old empty unready one
+                is not kept, and no more than maxReadyChanges finished changes are kept *)
+            && forallb (fun c => negb (kept (pc_id c)) ||
+                                 match pc_ready c with
+                                 | Some r => negb (r <? plimit)
+                                 | None => negb (match pc_tasks c with [] => spawn c <? plimit | _ => false end)
+                                 end) (ps_changes s)
+            && ((p_max_ready p <? 0) ||
+                (Z.of_nat (length (filter (fun c => kept (pc_id c) && is_some (pc_ready c)) (ps_changes s))) <=? p_max_ready p))
             && forallb (fun o => mem (fst o) (map pc_id (ps_changes s))) chs
             && forallb task_ok (ps_tasks s) && forallb status_ok (ps_tasks s)
             && forallb (exp_ok ws) (ps_warnings s) && forallb (exp_ok ns) (ps_notices s))
